@@ -68,3 +68,12 @@ Example C13_example :
   skip_drops 10 true stop nopanic (m_dospawn r) (m_nextc r) (init (m_c0 r)) sched = [6; 7; 8; 9] /\
   final_drop 10 s = [].
 Proof. vm_compute. repeat split. Qed.
+
+(** an iterator source of six elements, two workers, the second finds a match at position 2 while
+    holding [2, 4): position 3 is abandoned (dropped with its buffer), everything else is processed;
+    all six elements had been yielded by then *)
+Example C13_example_iter :
+  let r := mkRunner None 2%N (RExact 2%N) in
+  let s := imrunp r 6 true (fun i => Nat.eqb i 2) nopanic ([0; 0] ++ round_robin 2 30) in
+  iall_doneb s = true /\ map iseen (iws s) = [[0; 1; 4; 5]; [2]] /\ map iaband (iws s) = [[]; [3]] /\ ifront s = 6.
+Proof. vm_compute. repeat split. Qed.
